@@ -8,6 +8,8 @@ import glob, json, os, shutil, sys
 OUT = "/verif/seeded"
 # what happened before the result recorded below (the earlier screening results were overwritten by the later ones)
 HISTORY = {
+    "C13-r5m1": "missed by C13 on its first screening (number <-> text was left to C19); C13 now runs the boundary / random / short-text parts of NumFormat.tla itself",
+    "C11-r5m3": "the description was read before its screening: StrIdent.tla had no length above 100; lengths 255-257, 1024, 4097 were added first",
     "C14-m3": "missed on its first screening (no scenario rebound a built-in name); detected after module_builtin_scenarios was added",
     "C10-m3": "missed on its first screening (StackBudget.tla does not replay cases within 300 slots of the budget); detected after C10's stack-boundary layer was added",
     "C17-m3": "missed on its first screening (every calling statement was followed by another instruction on its line); detected after the calling statements were varied",
@@ -36,7 +38,9 @@ HISTORY = {
     "C09-r2m3": "the description was read before its screening; StackBudget.tla's fiber-nesting rule and its replay were added first",
 }
 rows = []
-for root, tag in (("/tmp/seed", ""), ("/tmp/seed2", "r2")):
+# rounds: SEED_ROOTS="/tmp/seed5:r5" (default: the scratch roots of rounds 3 and 4)
+ROOTS = [tuple(x.split(":")) for x in os.environ.get("SEED_ROOTS", "/tmp/seed:,/tmp/seed2:r2").split(",")]
+for root, tag in ROOTS:
     for md in sorted(glob.glob(root + "/out/C*/m*")):
         if not os.path.exists(md + "/patch.diff") or not os.path.exists(md + "/meta.json"):
             continue
@@ -71,7 +75,7 @@ for root, tag in (("/tmp/seed", ""), ("/tmp/seed2", "r2")):
         for c, r in applied.items():
             results[c] = r
         detected_by = sorted(c for c, r in results.items() if r.get("exit") == 1 and r.get("violations", r.get("violation_lines", 0)) > 0)
-        out = {"id": sid, "property": pid, "round": 2 if tag else 1,
+        out = {"id": sid, "property": pid, "round": int(tag[1:]) if tag[1:].isdigit() else (2 if tag else 1),
                "origin": "independent sub-agent given only the property text and its own scratch worktree of /repo",
                "breaks": meta.get("summary"), "needs": meta.get("needs"), "files": meta.get("files"), "profile": meta.get("profile"),
                "demonstration": {"cmd": meta.get("demo_cmd"), "files": sorted(f for f in os.listdir(dest) if f.startswith(("demo", "expected", "observed")))},
